@@ -4,6 +4,7 @@
     rf stress …                                         -> ok   (end-to-end monitor)
 -/
 import OrasModel.Model.Referrers
+import OrasModel.Model.Capability
 import OrasModel.Driver.Util
 namespace Oras.Driver.Rf
 open Oras Oras.Driver
@@ -63,6 +64,25 @@ def step (toks : List String) : Option (String × String) :=
         | none => "none"
         | some l => "keys=" ++ showSet (l.map (·.key))
       some (m, sp)
+  | "setcap" :: rest => do
+      -- SetReferrersCapability sequences (Model/Capability.lean); the specification: a call is
+      -- refused iff the capability is settled to the other value, and it is settled by the
+      -- first call (or by what the ping found)
+      let start ← match ← kv rest "start" with
+        | "fresh" => some Capability.State.unknown
+        | "pinged-supported" => some .supported
+        | "pinged-unsupported" => some .unsupported
+        | _ => none
+      let calls ← ((← kv rest "calls").splitOn ",").mapM (fun t => if t == "1" then some true else if t == "0" then some false else none)
+      let (_, outs) := calls.foldl (fun (acc : Capability.State × List String) c =>
+        let (s', refused) := Capability.setCap acc.1 c
+        (s', acc.2 ++ [if refused then "refused" else "ok"])) (start, [])
+      let settled : Option Bool := match start with
+        | .unknown => calls.head?
+        | .supported => some true
+        | .unsupported => some false
+      let sp := calls.map (fun c => if settled == some c then "ok" else "refused")
+      some (",".intercalate outs, ",".intercalate sp)
   | "fault" :: _ => some ("ok", "ok")      -- index-maintenance faults: delete error after the update, failed push keeps the old index
   | "merge" :: _ => some ("ok", "ok")      -- runtime monitor of syncutil.Merge (C14)
   | "stress" :: _ => some ("ok", "ok")
